@@ -23,6 +23,9 @@ import (
 func TestMain(m *testing.M) {
 	vlib.InstallMetrics()
 	vlib.QuietKlog()
+	if err := vlib.InstallTestCA(); err != nil { // before any TLS use (stub bastion certificate must be a system root)
+		panic(err)
+	}
 	if os.Getenv("VERIF_CHILD") != "" {
 		os.Exit(omniChildMain())
 	}
